@@ -31,6 +31,37 @@ def _c40_classes(i, o):
     return sorted(set(cls))
 
 
+_ON_COLS = {0: 'Metadata', 1: 'ContractsRawCode', 2: 'ContractsState', 3: 'ContractsLatestUtxo', 4: 'ContractsAssets',
+            5: 'Coins', 6: 'Transactions', 7: 'FuelBlocks', 8: 'FuelBlockMerkleData', 9: 'FuelBlockMerkleMetadata',
+            14: 'Messages', 15: 'ProcessedTransactions', 16: 'FuelBlockConsensus', 20: 'Blobs', 21: 'GenesisMetadata'}
+
+
+def _c39_classes(i, o):
+    enc = 'json' if i[0] == 0 else 'parquet'
+    cls = ['enc=%s' % enc, '%s:export_group=%d' % (enc, i[1]), 'blocks=%d' % (i[3] + 1)]
+    if i[0] == 0:
+        cls.append('json:import_group=%d' % i[2])
+    t = i[5]
+    g = i[2] if i[0] == 0 else i[1]
+    for name, tb in zip(('coins', 'msgs', 'blobs', 'contracts'), t[:4]):
+        cls.append('%s=%s' % (name, '0' if not tb else ('1..g' if len(tb) <= g else '>g')))
+    per = {}
+    for k, _ in t[5]:
+        per[k >> 32] = per.get(k >> 32, 0) + 1
+    if any(v > g for v in per.values()):
+        cls.append('contract_state_spans_groups')
+    if len(per) < len(t[3]):
+        cls.append('contract_without_state')
+    if t[7]:
+        cls.append('processed_tx_ids')
+    if isinstance(o, list) and len(o) == 5:
+        cls.append('regenesis=%s' % ('ok' if o[0] else 'failed'))
+        for c in o[4]:
+            if not c[1] and c[0] < 1000:
+                cls.append('%s:column_differs=%s' % (enc, _ON_COLS.get(c[0], c[0])))
+    return sorted(set(cls))
+
+
 PROPS = {
     'C40': dict(
         id='C40', cluster='Genesis', crate='h-genesis', tag=40,
@@ -61,6 +92,39 @@ PROPS = {
                      'commit failures are not injected (in-memory databases)',
                      'real handlers: the model treats the database as opaque (digests are the oracle of the implementation); '
                      'it predicts results, committed groups and progress rows'],
+        profiles=['dev'],
+        level='proof'),
+    'C39': dict(
+        id='C39', cluster='Genesis', crate='h-genesis', tag=39,
+        n={'quick': 120, 'thorough': 1500},
+        theorems=['concat_chunks', 'chunks_sizes', 'import_independent_of_grouping', 'import_export_id',
+                  'import_export_id_json_partial', 'import_export_id_json_refuted', 'codec_roundtrip',
+                  'c39_checker_sound', 'c39_model_passes'],
+        classify=_c39_classes,
+        shard=8, workers=16,
+        rule='generated chain states: 1..4 blocks committed one by one into an in-memory CombinedDatabase together with coins, '
+             'messages, blobs, contracts (code, latest UTXO, 0..2m state slots and 0..3 balances each, so that the slots of one '
+             'contract span several groups), processed transaction ids, off-chain statuses / owned transactions / spent '
+             'messages; the real Exporter::write_full_snapshot with group size in {1,2,3,7}, JSON and parquet (zstd level 1), '
+             'SnapshotReader::open_w_config with json group size in {1,2,3,7} (the first 32 cases sweep every pair of sizes for '
+             'both encodings), SnapshotImporter::import into fresh genesis databases. Compared: the modelled tables as (key '
+             'index, tx-pointer / DA height) lists against the model, last block height / DA height read from the snapshot, '
+             'and per-column digests (keys and value bytes) before and after. non-trivial = distinct case whose round trip ran',
+        assumptions=['the value bytes of the entries and the byte encoders (serde_json, postcard, parquet/zstd) are not modelled: '
+                     'the model compares keys and heights of the modelled tables; values are covered by the per-column digest '
+                     'equality of the implementation run (codec_roundtrip states what the model needs of an encoder)',
+                     'compared by digest: Coins, Messages, Blobs, ContractsRawCode, ContractsLatestUtxo, ContractsState, '
+                     'ContractsAssets (both encodings); ProcessedTransactions, FuelBlockMerkleData, FuelBlockMerkleMetadata and the '
+                     'off-chain TransactionStatuses, OwnedTransactions, SpentMessages (parquet). Not compared: on-chain FuelBlocks / '
+                     'Transactions / SealedBlockConsensus (they move to the off-chain Old* tables by design), Metadata, '
+                     'GenesisMetadata, and the off-chain indexes regenerated from coins and messages (OwnedCoins, OwnedMessageIds, '
+                     'balances, coins-to-spend): the generated source node has no such indexes to compare with',
+                     'the genesis block handed to SnapshotImporter::import is built by the harness the way create_genesis_block '
+                     'does (height = last height + 1, DA height and prev_root from the snapshot); the import is observed before the '
+                     'genesis block itself is committed',
+                     'wf_sdb (theorem hypothesis, guaranteed by the generator): no coin / contract UTXO above the last block, no '
+                     'message above the last DA height, code and UTXO rows for the same contracts, slots and balances only for '
+                     'contracts with code'],
         profiles=['dev'],
         level='proof'),
 }
